@@ -89,6 +89,7 @@ package asm
 
 //@ func (*Emitter).Clone
 //@   property C16
+//@   modular
 //@   ensures ret1.flagsTracker == a.flagsTracker && ret1.generateText == a.generateText && ret1.address == a.address && ret1.base == a.base && ret1.baseSet == a.baseSet
 //@   ensures ret1.n == 0 && len(ret1.lines) == 0 && aliases(ret1.code, target) && lo(ret1.code) == lo(target) && len(ret1.code) == len(target)
 //@   ensures !sameobj(ret1.labels, a.labels) && !sameobj(ret1.danglingS8, a.danglingS8) && !sameobj(ret1.danglingU16, a.danglingU16)
@@ -111,6 +112,7 @@ package asm
 
 //@ func (*Emitter).Append
 //@   property C16
+//@   modular
 //@   requires a.n >= 0 && a.n <= len(a.code) && e.n >= 0 && e.n <= len(e.code)
 //@   panics a.n+e.n > len(a.code)
 //@   onpanic a.n == old(a.n) && a.address == old(a.address) && a.base == old(a.base) && a.flagsTracker == old(a.flagsTracker) && len(a.lines) == old(len(a.lines))
